@@ -44,6 +44,8 @@ def call_builtin(ip, st, name, args, kwargs, node=None):
         return f(ip, st, args, kwargs)
     if name.startswith('typing.'):
         return args[-1] if args else None
+    if name == 'object.__init__':
+        return None
     if ip.on_unsupported_call is not None:
         r = ip.on_unsupported_call(ip, st, name, args, kwargs)
         if r is not NotImplemented:
@@ -521,7 +523,16 @@ def b_callable(ip, st, args, kwargs):
     return isinstance(args[0], (FuncRef, BoundMethod, Builtin, ClassRef))
 
 
+def b_chr8(ip, st, args, kwargs):
+    """spec primitive: the one-byte string of a value 0..255"""
+    (v,) = args
+    if isinstance(v, int):
+        return bytes([v % 256])
+    return mk(z3.StrFromCode(I(v)), 'bytes')
+
+
 BUILTIN_IMPL = {
+    'chr8': b_chr8,
     'len': b_len, 'range': b_range, 'ord': b_ord, 'chr': b_chr, 'int': b_int, 'str': b_str, 'bool': b_bool,
     'bytes': b_bytes, 'bytearray': b_bytearray, 'isinstance': b_isinstance, 'max': b_max, 'min': b_min,
     'sorted': b_sorted, 'enumerate': b_enumerate, 'list': b_list, 'tuple': b_tuple, 'dict': b_dict, 'set': b_set,
@@ -1126,6 +1137,7 @@ def parse_fmt(fmt):
 
 def m_struct_unpack(ip, st, args, kwargs):
     fmt, data = args
+    fmt = ip.concretize(st, fmt)
     fields = parse_fmt(fmt)
     total = sum(n for n, _ in fields)
     if isinstance(data, bytes):
@@ -1149,7 +1161,7 @@ def m_struct_unpack(ip, st, args, kwargs):
 
 
 def m_struct_pack(ip, st, args, kwargs):
-    fmt = args[0]
+    fmt = ip.concretize(st, args[0])
     vals = list(args[1:])
     fields = parse_fmt(fmt)
     if len(fields) != len(vals):
